@@ -87,7 +87,7 @@ func reqGen(t *rapid.T, label string) (string, int32) {
 }
 
 func cutK(t *rapid.T) int {
-	switch rapid.SampledFrom([]string{"mux", "ttrpc", "near", "near", "far", "huge"}).Draw(t, "band") {
+	switch rapid.SampledFrom([]string{"near", "ttrpc", "mux", "near", "far", "ttrpc", "mux", "huge"}).Draw(t, "band") {
 	case "mux":
 		return rapid.IntRange(0, 7).Draw(t, "k")
 	case "ttrpc":
@@ -101,8 +101,8 @@ func cutK(t *rapid.T) int {
 }
 
 func faultGen(t *rapid.T, idx int, slowLeft *int) Fault {
-	kinds := []string{"cut", "cut", "cut", "cut", "cut", "close", "close", "close", "hang", "hang", "error", "error",
-		"wrongtype", "wrongtype", "garbage", "garbage", "undecodable", "undecodable"}
+	kinds := []string{"cut", "close", "error", "cut", "undecodable", "hang", "wrongtype", "cut", "garbage", "close", "error",
+		"cut", "undecodable", "wrongtype", "close", "cut", "hang", "garbage"}
 	k := rapid.SampledFrom(kinds).Draw(t, "kind")
 	if k == "undecodable" && ev.Known(KnownD11) {
 		ev.Get("C07").AddExtra("excluded_"+KnownD11, 1)
@@ -171,7 +171,7 @@ func genC07(t *rapid.T) C07Case {
 	c.Follow, c.FollowEvent = reqGen(t, "follow")
 	n := rapid.SampledFrom([]int{2, 3, 3, 4, 4, 5}).Draw(t, "plugins")
 	idx := rapid.SliceOfNDistinct(rapid.IntRange(0, 99), n, n, rapid.ID[int]).Draw(t, "indices")
-	nf := rapid.SampledFrom([]int{0, 1, 1, 1, 1, 1, 1, 2, 2, 2, 3}).Draw(t, "nfaults")
+	nf := rapid.SampledFrom([]int{1, 1, 2, 1, 1, 2, 1, 2, 3, 1, 2, 0}).Draw(t, "nfaults")
 	if nf > n {
 		nf = n
 	}
